@@ -18,7 +18,10 @@ var symRe = regexp.MustCompile(`\|[^|]+\|`)
 // Query builds the SMT-LIB text of the obligation: prelude, the cone of
 // influence of the path condition and goal within the script prefix, and the
 // negated goal.
-func (o *Obligation) Query() string {
+func (o *Obligation) Query() string { return o.queryFor(o.PC, o.Goal) }
+
+// queryFor builds the query "pc => goal" in the obligation's context.
+func (o *Obligation) queryFor(pc, goal string) string {
 	lines := o.fe.sc.lines[:o.Prefix]
 	need := map[string]bool{}
 	addSyms := func(t string) bool {
@@ -31,8 +34,8 @@ func (o *Obligation) Query() string {
 		}
 		return ch
 	}
-	addSyms(o.PC)
-	addSyms(o.Goal)
+	addSyms(pc)
+	addSyms(goal)
 	include := make([]bool, len(lines))
 	for changed := true; changed; {
 		changed = false
@@ -79,7 +82,7 @@ func (o *Obligation) Query() string {
 			b.WriteByte('\n')
 		}
 	}
-	tail := "(assert " + o.PC + ")\n(assert " + not(o.Goal) + ")\n(check-sat)\n"
+	tail := "(assert " + pc + ")\n(assert " + not(goal) + ")\n(check-sat)\n"
 	body := b.String()
 	// spec-function axioms: only those whose functions are mentioned
 	used := map[int]bool{}
@@ -135,16 +138,43 @@ func dischargeAll(obls []*Obligation, timeoutS, seed int, cross bool, workers in
 			var r SolveResult
 			if o.Expect == "sat" {
 				// vacuity probe: fails only when the path condition is refuted
-				r = runSolver(context.Background(), solvers[0], o.Query(), 3, seed)
+				r = runSolver(context.Background(), solvers[0], o.Query(), 1, seed)
 				res[i] = OblResult{O: o, R: r, OK: r.Status != "unsat" && r.Status != "error"}
 				return
 			}
-			r = solve(o.Query(), timeoutS, seed, cross)
+			r = solveObligation(o, timeoutS, seed, cross)
 			res[i] = OblResult{O: o, R: r, OK: r.Status == o.Expect}
 		}(i, o)
 	}
 	wg.Wait()
 	return res
+}
+
+// solveObligation discharges one obligation. A conjunctive goal that does not
+// go through as a whole is retried conjunct by conjunct, each under the
+// assumption of the earlier ones (stepping stones for the solver).
+func solveObligation(o *Obligation, timeoutS, seed int, cross bool) SolveResult {
+	r := solve(o.Query(), timeoutS, seed, cross)
+	if r.Status == "unsat" || r.Status == "sat" || r.Status == "error" {
+		return r
+	}
+	parts := splitAnd(o.Goal)
+	if len(parts) < 2 {
+		return r
+	}
+	total := r.Seconds
+	var assumed []string
+	for _, p := range parts {
+		pr := solve(o.queryFor(and(append([]string{o.PC}, assumed...)...), p), timeoutS, seed, cross)
+		total += pr.Seconds
+		if pr.Status != "unsat" {
+			pr.Seconds = total
+			pr.Output = "conjunct " + fmt.Sprint(len(assumed)+1) + " of " + fmt.Sprint(len(parts)) + ": " + pr.Output
+			return pr
+		}
+		assumed = append(assumed, p)
+	}
+	return SolveResult{Status: "unsat", Solver: "split(" + fmt.Sprint(len(parts)) + ")", Seconds: total}
 }
 
 func main() {
@@ -248,7 +278,7 @@ func cmdVerify(mode string, args []string) {
 		}
 		return
 	}
-	res := dischargeAll(all, *timeout, 0, false, runtime.NumCPU()/2)
+	res := dischargeAll(all, *timeout, 0, false, runtime.NumCPU()-2)
 	ok := 0
 	var solverTime float64
 	for _, r := range res {
